@@ -438,6 +438,15 @@ theorem C08_record_calls_dominated :
       Gen.C08.ipStrPos = true := by
   decide +kernel
 
+/-- Over the facts regenerated from internal/home on every run: the anonymizer is
+constructed once and that one instance reaches both the query log (whose
+config handlers switch it at run time) and the DNS server (which applies it
+before anything is recorded). -/
+theorem C08_gen_single_anonymizer :
+    Facts.singleAnonymizer Gen.C08.anonymizerCalls Gen.C08.anonymizerToQueryLog
+      Gen.C08.anonymizerToServer = true := by
+  decide +kernel
+
 /-! ## Non-vacuity -/
 
 section Examples
